@@ -91,6 +91,24 @@ def order_sweep(ctx, db, aff, r):
                             order_pair(ctx, FractionScalar(FractionValue(x), u), FractionScalar(FractionValue(y), v), A, B, noise * 4, dict(case, fraction=True), "FractionScalar")
                         except Exception as e:
                             ctx.violation("Scalar:construction-raised", dict(case, error=repr(e)[:200]), replay=case)
+    # a fraction part below zero in a very small unit against a large one (-1/2 nm and 0 m): the fraction is part of the amount
+    if ctx.shard == 0:
+        for qt, us in table.units_by_type(db).items():
+            us = [u for u in us if u in aff and aff[u].exact and aff[u].slope > 0 and aff[u].off == 0.0]
+            if qt == "Unknown" or len(us) < 2:
+                continue
+            small, big = min(us, key=lambda t: aff[t].slope), max(us, key=lambda t: aff[t].slope)
+            if aff[big].slope / aff[small].slope < 1e6:
+                continue
+            for fva, fvb in ((FractionValue(0, (-1, 2)), FractionValue(0)), (FractionValue(0, (1, 2)), FractionValue(0)), (FractionValue(-3, (-1, 4)), FractionValue(0, (-1, 1000))), (FractionValue(2, (-1, 2)), FractionValue(0, (1, 4)))):
+                A = Fr(aff[small].slope) * (Fr(fva.number) + Fr(fva.fraction.numerator) / Fr(fva.fraction.denominator))
+                B = Fr(aff[big].slope) * (Fr(fvb.number) + Fr(fvb.fraction.numerator) / Fr(fvb.fraction.denominator))
+                case = {"qt": qt, "u": small, "v": big, "a": repr(fva), "b": repr(fvb)}
+                ctx.nt(("order small fraction", qt, small, big))
+                try:
+                    order_pair(ctx, FractionScalar(fva, small), FractionScalar(fvb, big), A, B, Fr(0), case, "FractionScalar")
+                except Exception as e:
+                    ctx.violation("FractionScalar:construction-raised", dict(case, error=repr(e)[:200]), replay=case)
     hv = [x for x in values.hostile() if abs(x) < 1e10]
     for idx, (qt, u, v) in enumerate(work):
         if idx % ctx.nshards != ctx.shard:
@@ -127,6 +145,9 @@ def order_sweep(ctx, db, aff, r):
             try:
                 fa, fb = FractionScalar(FractionValue(x), u), FractionScalar(FractionValue(y), v)
                 order_pair(ctx, fa, fb, A, B, noise, case, "FractionScalar")
+                # a Scalar and a FractionScalar of one quantity type are ordered like two Scalars (either class on the left)
+                order_pair(ctx, Scalar(x, u), fb, A, B, noise, dict(case, classes="Scalar / FractionScalar"), "Scalar-with-FractionScalar")
+                order_pair(ctx, fa, Scalar(y, v), A, B, noise, dict(case, classes="FractionScalar / Scalar"), "Scalar-with-FractionScalar")
                 # the value a FractionScalar holds is the caller's object and its fraction can be edited in place: the order asked for
                 # afterwards is the order of the amounts held then (nothing remembered from the comparison before)
                 if x == x and abs(x) < 1e6:
